@@ -84,6 +84,9 @@ def musicxml_to_sequence_proto(musicxml_document):
       key_signature.mode = key_signature.MAJOR
     elif musicxml_key.mode == "minor":
       key_signature.mode = key_signature.MINOR
+      # The tonic of a minor key lies a minor third below the major tonic with
+      # the same number of fifths (0 fifths and minor is A minor).
+      key_signature.key = (key_signature.key + 9) % 12
 
   # Populate tempo changes.
   musicxml_tempos = musicxml_document.get_tempos()
